@@ -127,6 +127,15 @@ def cases(rng, tier, shard, nshards):
         version = "gfa1" if rng.random() < 0.7 else "gfa2"
         lines, names, feats = gen_graph(rng, version)
         rng.shuffle(lines)
+        if rng.random() < 0.1:
+            # every segment carries a copy number: apply_copy_numbers() multiplies each by it
+            out = []
+            for l in lines:
+                if l.startswith("S\t"):
+                    l += "\tcn:i:%d" % rng.choice([1, 1, 2, 2, 3])
+                out.append(l)
+            yield {"k": "apply-cn", "version": version, "lines": out, "times": rng.choice([1, 2, 2]), "feats": feats}
+            continue
         k = rng.choice([-1, 0, 1, 2, 2, 3, 3, 4])
         given = rng.random() < 0.3 and k >= 2
         yield {"version": version, "lines": lines, "segment": rng.choice(names), "factor": k,
@@ -193,7 +202,54 @@ def counts_ok(before_tags, after_tags, k):
     return True
 
 
+def run_apply_cn(case, ctx):
+    """apply_copy_numbers() multiplies each segment by its copy number: it must do what the
+    multiplications, called one by one in the same order, do (also when it is applied again to the
+    graph it produced, whose copies carry copy numbers too)."""
+    version, lines = case["version"], case["lines"]
+    lvl = level_of(ctx, lines)
+    r1 = call(ctx, "Gfa(list)", gfapy.Gfa, lines, version=version, vlevel=lvl)
+    r2 = call(ctx, "Gfa(list)", gfapy.Gfa, lines, version=version, vlevel=lvl)
+    if not (r1.ok and r2.ok):
+        return
+    g1, g2 = r1.value, r2.value
+
+    def one_by_one(g):
+        for s in sorted(g.segments, key=lambda s: s.try_get("cn")):
+            g.multiply(s.name, s.get("cn"), distribute="auto", copy_names=None, conserve_components=True,
+                       origin_tag="or", track_origin=True)
+    for t in range(case["times"]):
+        a = call(ctx, "apply_copy_numbers", g1.apply_copy_numbers)
+        b = call(ctx, "multiply, one segment after the other", one_by_one, g2)
+        ctx.count("apply_copy_numbers_calls")
+        if a.ok != b.ok:
+            ctx.violation("apply_copy_numbers-differs/%s-vs-%s/application-%d" % (a.cls() if not a.ok else "ok", b.cls() if not b.ok else "ok", t + 1),
+                          "application %d on %r: apply_copy_numbers -> %s, the multiplications one by one -> %s"
+                          % (t + 1, lines, str(a.exc)[:200] if not a.ok else "ok", str(b.exc)[:200] if not b.ok else "ok"))
+            return
+        if not a.ok:
+            return
+        t1 = sorted(repr(x) for x in S.canon_doc([O.safe_str(l) for l in g1.lines], version))
+        t2 = sorted(repr(x) for x in S.canon_doc([O.safe_str(l) for l in g2.lines], version))
+        if t1 != t2:
+            ma = [x for x in t1 if x not in t2]
+            mb = [x for x in t2 if x not in t1]
+            ctx.violation("apply_copy_numbers-differs/text/application-%d" % (t + 1),
+                          "application %d on %r: only with apply_copy_numbers %r; only one by one %r" % (t + 1, lines, ma[:3], mb[:3]))
+            return
+        nseg = len(g1.segments)
+    for key, detail in invariants.closed_symmetric(g1):
+        if key.endswith("owner/H"):
+            continue
+        ctx.violation("after-apply_copy_numbers/closed-symmetric/" + key, detail)
+        return
+    ctx.nontriv(lines)
+    ctx.sample({"k": "apply-cn", "lines": lines, "segments_after": nseg})
+
+
 def run(case, ctx):
+    if case.get("k") == "apply-cn":
+        return run_apply_cn(case, ctx)
     version, lines, sname, k = case["version"], case["lines"], case["segment"], case["factor"]
     r = call(ctx, "Gfa(list)", gfapy.Gfa, lines, version=version, vlevel=level_of(ctx, lines))
     if not r.ok:
